@@ -4,6 +4,7 @@ import (
 	"bytes"
 	"encoding/hex"
 	"fmt"
+	"sync"
 	"testing"
 	"time"
 
@@ -239,6 +240,62 @@ func c12Run(p c12Plan) *common.Fail {
 				return f
 			}
 		}
+	case "out-concurrent":
+		// several goroutines send different events through one client at the same time: every frame on the wire
+		// must still be the frame of exactly one of the events (nothing shared between frames under construction)
+		g := len(p.Events)
+		if g > 8 {
+			g = 8
+		}
+		if !a.tunnel {
+			a.gr.Close()
+			a.sock.Close()
+			// a router with a post-send pause: the senders queue on its lock after they have built their frames
+			a.sock = common.NewMemSock(nil)
+			a.gr = knx.VerifNewGroupRouter(a.sock, knx.RouterConfig{RetainCount: 4, PostSendPauseDuration: 500 * time.Microsecond})
+		}
+		var wg sync.WaitGroup
+		errs := make(chan error, len(p.Events))
+		for k := 0; k < g; k++ {
+			wg.Add(1)
+			go func(k int) {
+				defer wg.Done()
+				for i := k; i < len(p.Events); i += g {
+					if err := a.send(toLibEvent(p.Events[i])); err != nil {
+						errs <- err
+					}
+				}
+			}(k)
+		}
+		wg.Wait()
+		close(errs)
+		for err := range errs {
+			return common.Failf("send-error", "concurrent Send returned %v", err)
+		}
+		frames := a.dataFrames()
+		if len(frames) != len(p.Events) {
+			return common.Failf("frame-count", "%d events sent by %d goroutines, %d distinct frames on the wire", len(p.Events), g, len(frames))
+		}
+		used := make([]bool, len(p.Events))
+		for _, fb := range frames {
+			matched := false
+			var last *common.Fail
+			for i, ev := range p.Events {
+				if used[i] {
+					continue
+				}
+				if f := checkOutboundFrame(fb, ev, a.tunnel); f == nil {
+					used[i], matched = true, true
+					break
+				} else {
+					last = f
+				}
+			}
+			if !matched {
+				f := common.Failf("frame-of-no-event", "%d goroutines sent %d different events; the frame %x is the frame of none of them (closest mismatch: %s: %s)", g, len(p.Events), fb, last.Kind, last.Detail)
+				return f
+			}
+		}
 	case "in":
 		var want []knx.GroupEvent
 		for _, c := range p.Inbound {
@@ -351,8 +408,14 @@ func genGEvent(rt *rapid.T) gEvent {
 }
 
 func genPlanC12(rt *rapid.T) c12Plan {
-	p := c12Plan{Client: rapid.SampledFrom([]string{"tunnel", "router"}).Draw(rt, "client"), Dir: rapid.SampledFrom([]string{"out", "in", "in", "e2e"}).Draw(rt, "dir")}
+	p := c12Plan{Client: rapid.SampledFrom([]string{"tunnel", "router"}).Draw(rt, "client"), Dir: rapid.SampledFrom([]string{"out", "in", "in", "e2e", "out-concurrent"}).Draw(rt, "dir")}
 	switch p.Dir {
+	case "out-concurrent":
+		for i := 0; i < rapid.IntRange(2, 16).Draw(rt, "events"); i++ {
+			e := genGEvent(rt)
+			e.Src = 0x1000 + i // distinct events
+			p.Events = append(p.Events, e)
+		}
 	case "out", "e2e":
 		p.Client2 = rapid.SampledFrom([]string{"tunnel", "router"}).Draw(rt, "client2")
 		for i := 0; i < rapid.IntRange(1, 12).Draw(rt, "events"); i++ {
